@@ -32,6 +32,7 @@ pub(crate) fn encode_key(this: &Key, buf: &mut dyn Write, input: Option<&str>) -
     Ok(())
 }
 
+/// Encode the key path of a table header
 fn encode_key_path(
     this: &[Key],
     mut buf: &mut dyn Write,
@@ -39,6 +40,14 @@ fn encode_key_path(
     default_decor: (&str, &str),
 ) -> Result {
     let leaf_decor = this.last().expect("always at least one key").leaf_decor();
+    // Inside `[ ]` only spaces and tabs may surround a key. A key that started out in a key/value
+    // pair (an inline table or array turned into a table in place) still carries the comments and
+    // line breaks that preceded the pair; printing those would produce an invalid header.
+    let is_header_ws = |raw: Option<&crate::RawString>| {
+        raw.and_then(|raw| raw.as_str())
+            .map(|s| s.bytes().all(|b| b == b' ' || b == b'\t'))
+            .unwrap_or(true)
+    };
     for (i, key) in this.iter().enumerate() {
         let dotted_decor = key.dotted_decor();
 
@@ -46,7 +55,11 @@ fn encode_key_path(
         let last = i + 1 == this.len();
 
         if first {
-            leaf_decor.prefix_encode(buf, input, default_decor.0)?;
+            if is_header_ws(leaf_decor.prefix()) {
+                leaf_decor.prefix_encode(buf, input, default_decor.0)?;
+            } else {
+                write!(buf, "{}", default_decor.0)?;
+            }
         } else {
             buf.key_sep()?;
             dotted_decor.prefix_encode(buf, input, DEFAULT_KEY_PATH_DECOR.0)?;
@@ -55,7 +68,11 @@ fn encode_key_path(
         encode_key(key, buf, input)?;
 
         if last {
-            leaf_decor.suffix_encode(buf, input, default_decor.1)?;
+            if is_header_ws(leaf_decor.suffix()) {
+                leaf_decor.suffix_encode(buf, input, default_decor.1)?;
+            } else {
+                write!(buf, "{}", default_decor.1)?;
+            }
         } else {
             dotted_decor.suffix_encode(buf, input, DEFAULT_KEY_PATH_DECOR.1)?;
         }
